@@ -21,6 +21,8 @@ func main() {
 		devMain(os.Args[2:])
 	case "check":
 		checkMain(os.Args[2:])
+	case "deps":
+		depsMain(os.Args[2:])
 	default:
 		fmt.Fprintln(os.Stderr, "unknown command", os.Args[1])
 		os.Exit(2)
@@ -154,4 +156,42 @@ func sortedSet(m map[string]bool) []string {
 	}
 	sort.Strings(out)
 	return out
+}
+
+// deps: for every function under contract, the callees whose contracts its proof relies on (modular calls) that are not
+// tagged with one of the function's own properties: candidates for an [label also Cxx] tag on the postcondition used.
+func depsMain(args []string) {
+	repo := "/repo"
+	if len(args) > 0 {
+		repo = args[0]
+	}
+	eng, err := loadEngine(repo)
+	if err != nil {
+		fmt.Fprintln(os.Stderr, "load:", err)
+		os.Exit(2)
+	}
+	by := map[string]*FnResult{}
+	var rs []*FnResult
+	for _, fn := range eng.targets() {
+		r := eng.verifyFunc(fn)
+		by[r.Name] = r
+		rs = append(rs, r)
+	}
+	for _, r := range rs {
+		for _, c := range r.UsedCallees {
+			cr := by[c]
+			if cr == nil {
+				continue
+			}
+			var missing []string
+			for _, p := range r.Props {
+				if !hasProp(cr.Props, p) && !hasProp(cr.AlsoProps, p) {
+					missing = append(missing, p)
+				}
+			}
+			if len(missing) > 0 {
+				fmt.Printf("%s %v -> %s %v also=%v : missing %v\n", r.Name, r.Props, c, cr.Props, cr.AlsoProps, missing)
+			}
+		}
+	}
 }
